@@ -203,6 +203,11 @@ pub fn sweep(part: &str, shards: usize, hang_timeout: Duration, extra_env: &[(St
                         }
                         None => "died".into(),
                     };
+                    // every call into the subject is guarded by catch_unwind inside the engines: a worker that ends with
+                    // Rust's panic status (101) panicked in HARNESS code. That is a defect of the machinery, never a verdict.
+                    if what == "exit(101)" {
+                        crate::report::machinery_error(&format!("a sweep worker of part {part} panicked outside the guarded subject calls (harness defect) at case {:?}; rerun the worker with VERIF_SWEEP set to see the message", w.last_start));
+                    }
                     match w.last_start {
                         Some(idx) => {
                             crashes.push(Crash { index: idx, what });
